@@ -251,6 +251,13 @@ Alts(c)     == [super |-> AltSuper(c), seq |-> AltSeq(c), pkg |-> AltPkg(c), imp
 FnNames == {"f", "g"}
 Exports(c) == {[p |-> it.p, n |-> it.n, present |-> (it.p \in c.mods)] : it \in {x \in c.items : x.n \in FnNames}}
 
+(* names introduced by an import that are ALSO reachable from the enclosing  *)
+(* scope of the importing scope (the import must win, whatever the order of *)
+(* the imports of that scope); used for anti-vacuity counting               *)
+OuterNamesakes(c) ==
+  {Alias(c, j) : j \in {i \in 1..Len(c.imps) :
+      LookupS(c, Strict, Parent(c, c.imps[i].sc), Alias(c, i), 0, {}).k # "err"}}
+
 (* which lookup rule decides the expected resolution (anti-vacuity classes) *)
 RECURSIVE HowS(_, _, _, _)
 HowS(c, s, id, hops) ==
